@@ -85,6 +85,10 @@ class Ctx:
         """bytes of length `width` whose big-endian value is `value` (digits are the free variables,
         tied to the value by one linear Horner equation)"""
         z3 = core.z3
+        if first_max == 255 and is_sym(value):
+            return BList(core.digits_of(T(value), width))
+        if not is_sym(value):
+            return const(int(value).to_bytes(width, "big"))
         ds = []
         h = z3.IntVal(0)
         for k in range(width):
@@ -200,6 +204,9 @@ class Ctx:
 
     def module_global(self, module, name):
         return self.I.module(module).globals[name]
+
+    def is_lib_obj(self, obj, kind):
+        return isinstance(obj, Obj) and obj.kind == kind
 
     def hash_is(self, obj, name):
         """obj is an instance of the hash algorithm `name` (assumed record model of cryptography.hashes)"""
